@@ -1,0 +1,78 @@
+//go:build verif
+
+package vgirpc
+
+import (
+	"encoding/hex"
+	"sort"
+	"time"
+)
+
+// Guarded exports for the conformance harness of the sticky-session registry
+// (property C29). Each function calls the real one or reads state; none is
+// reachable from production builds.
+
+// VerifStickyDrainExpired calls sessionRegistry.drainExpired — the body of one
+// reaper tick — with the given tick time.
+func VerifStickyDrainExpired(h *HttpServer, now time.Time) int {
+	return h.stickyRegistry.drainExpired(now)
+}
+
+// VerifStickySessionIDs returns the hex ids of the entries currently in the map.
+func VerifStickySessionIDs(h *HttpServer) []string {
+	r := h.stickyRegistry
+	r.mu.Lock()
+	defer r.mu.Unlock()
+	out := make([]string, 0, len(r.entries))
+	for sid := range r.entries {
+		out = append(out, hex.EncodeToString(sid[:]))
+	}
+	sort.Strings(out)
+	return out
+}
+
+// VerifStickyLocked returns the hex ids of live entries whose per-session lock
+// is held right now (TryLock fails).
+func VerifStickyLocked(h *HttpServer) []string {
+	r := h.stickyRegistry
+	r.mu.Lock()
+	defer r.mu.Unlock()
+	out := []string{}
+	for sid, e := range r.entries {
+		if e.lock.TryLock() {
+			e.lock.Unlock()
+			continue
+		}
+		out = append(out, hex.EncodeToString(sid[:]))
+	}
+	sort.Strings(out)
+	return out
+}
+
+// VerifStickyIsRegistry reports whether x (a hook argument) is h's registry.
+func VerifStickyIsRegistry(h *HttpServer, x any) bool {
+	r, ok := x.(*sessionRegistry)
+	return ok && r == h.stickyRegistry
+}
+
+// VerifStickyEntryState returns the state object of a *sessionEntry hook argument.
+func VerifStickyEntryState(x any) (any, bool) {
+	e, ok := x.(*sessionEntry)
+	if !ok || e == nil {
+		return nil, false
+	}
+	return e.state, true
+}
+
+// VerifStickyEntriesStates returns the state objects of a []*sessionEntry hook argument.
+func VerifStickyEntriesStates(x any) []any {
+	es, ok := x.([]*sessionEntry)
+	if !ok {
+		return nil
+	}
+	out := make([]any, 0, len(es))
+	for _, e := range es {
+		out = append(out, e.state)
+	}
+	return out
+}
